@@ -965,6 +965,10 @@ class Patron(object):
             hostname = splits.hostname
             port = splits.port
             scheme = splits.scheme
+            if not hostname:  # relative location so same scheme host and port as request
+                hostname = self.requester.hostname
+                port = self.requester.port
+                scheme = scheme or self.requester.scheme
             scheme = 'https' if scheme.lower() == 'https' else 'http'
             if scheme == 'https':
                 secured = True  # use tls socket connection
